@@ -145,7 +145,13 @@ class ConfigManager(object):
     def save(self, profile_name, config, serialize_type=TYPE_JSON, dest=None):
         outputdata = self.config_to_str(config, serialize_type)
         if dest is None:
-            StorageTools.writeProfileConfig(profile_name, outputdata)
+            # the file name must carry the extension load() expects for this format
+            fnames = dict((ftype, "%s.%s" % (self.NAME_FILE_CONFIG, ext)) for ext, ftype in self.MAP_EXT.items())
+            StorageTools.writeProfileData(profile_name, fnames[serialize_type], outputdata)
+            for ftype, fname in fnames.items():
+                if ftype != serialize_type:
+                    # a config left behind in another format would shadow the one just written
+                    StorageTools.removeProfileData(profile_name, fname)
         else:
             with open(dest, 'w') as outputfile:
                 outputfile.write(outputdata)
